@@ -426,3 +426,103 @@ pub fn run(text: &str, cases_path: &str, out: &mut impl Write) {
         let _ = password();
     }
 }
+
+/// C17 (b): uploads of a blob to the real server under the name sha256(correct body), with bodies that
+/// do or do not hash to that name; after each attempt the server directory is inspected.
+pub fn upload_case(id: &str, toks: &[&str], base: &Path, out: &mut impl Write) {
+    let rt2 = rt();
+    let sdb = kv(toks, "sbe") == Some("db");
+    let bodies: Vec<String> = kv(toks, "bodies").unwrap_or("correct").split(',').map(|s| s.to_string()).collect();
+    let dir = base.join(id);
+    let _ = std::fs::remove_dir_all(&dir);
+    let cwd = dir.join("x").join("y");
+    std::fs::create_dir_all(&cwd).unwrap();
+    std::env::set_current_dir(&cwd).unwrap();
+    if sdb {
+        std::env::set_var("SOS_TEST_SERVER_DB", "1");
+    } else {
+        std::env::remove_var("SOS_TEST_SERVER_DB");
+    }
+    rt2.block_on(async {
+        crate::acct::set_clock(1);
+        let a = new_account(&dir, "A").await;
+        let cfg_file = dir.join("config.toml");
+        std::fs::write(&cfg_file, "[storage]\npath = \".\"\n").unwrap();
+        let Ok(config) = ServerConfig::load(&cfg_file).await else {
+            writeln!(out, "{id} setup-failed config").unwrap();
+            return;
+        };
+        let spawned = tokio::time::timeout(std::time::Duration::from_secs(30), sos_test_utils::spawn_with_config(id, None, None, Some(config))).await;
+        let server = match spawned {
+            Ok(Ok(s)) => s,
+            _ => {
+                writeln!(out, "{id} setup-failed spawn").unwrap();
+                return;
+            }
+        };
+        let addr = server.addr;
+        let origin = server.origin.clone();
+        let srv_dir: PathBuf = server.paths.documents_dir().to_path_buf();
+        let ba = bridge(&a, &origin);
+        let r1 = ba.execute_sync(&SyncOptions::default()).await;
+        writeln!(out, "{id} !setup syncA={}", r1.is_ok()).unwrap();
+        let folder: VaultId = { *a.dev.bridge.account.lock().await.default_folder().await.unwrap().id() };
+        for (k, kind) in bodies.iter().enumerate() {
+            // a fresh blob (and secret id) per attempt so that attempts do not see each other's files
+            let secret = SecretId::new_v4();
+            let correct: Vec<u8> = format!("c17 blob number {k} {}", "z".repeat(200 + 37 * k)).into_bytes();
+            let name = hex::encode(Sha256::digest(&correct));
+            let body: Vec<u8> = match kind.as_str() {
+                "correct" => correct.clone(),
+                "altered" => {
+                    let mut b = correct.clone();
+                    let i = b.len() / 2;
+                    b[i] ^= 1;
+                    b
+                }
+                "truncated" => correct[..correct.len() / 2].to_vec(),
+                "empty" => vec![],
+                "extended" => {
+                    let mut b = correct.clone();
+                    b.push(0);
+                    b
+                }
+                _ => b"some other file entirely".to_vec(),
+            };
+            let path = format!("/api/v1/sync/file/{folder}/{secret}/{name}");
+            let headers = vec![
+                ("x-sos-account-id".to_string(), a.id.to_string()),
+                ("Authorization".to_string(), format!("Bearer {}", sig_token(&a.signer, path.as_bytes()).await)),
+                ("Content-Type".to_string(), "application/octet-stream".to_string()),
+            ];
+            let resp = http(&addr, "PUT", &format!("{path}?connection_id=c17"), &headers, &body).await;
+            tokio::time::sleep(std::time::Duration::from_millis(20)).await;
+            // what the server holds for this secret now
+            let mut found: Vec<(String, Vec<u8>)> = vec![];
+            fn walk(p: &Path, needle: &str, out: &mut Vec<(String, Vec<u8>)>) {
+                let Ok(rd) = std::fs::read_dir(p) else { return };
+                for e in rd.flatten() {
+                    if e.file_type().map(|t| t.is_dir()).unwrap_or(false) {
+                        walk(&e.path(), needle, out);
+                    } else if e.path().to_string_lossy().contains(needle) {
+                        out.push((e.file_name().to_string_lossy().to_string(), std::fs::read(e.path()).unwrap_or_default()));
+                    }
+                }
+            }
+            walk(&srv_dir, &secret.to_string(), &mut found);
+            let fin = match found.iter().find(|(n, _)| *n == name) {
+                None => "absent".to_string(),
+                Some((_, b)) => {
+                    if hex::encode(Sha256::digest(b)) == name { "ok".to_string() } else { "BADHASH".to_string() }
+                }
+            };
+            let leftovers: Vec<String> = found.iter().filter(|(n, _)| *n != name).map(|(n, _)| if n.ends_with(".upload") { "upload".to_string() } else { n.chars().take(12).collect() }).collect();
+            writeln!(out, "{id} up {k} body={kind} status={} final={fin} leftovers={}", resp.status, leftovers.join(",")).unwrap();
+        }
+        crate::acct::set_clock(0);
+        drop(server);
+    });
+    let _ = std::env::set_current_dir(base);
+    let _ = std::fs::remove_dir_all(&dir);
+}
+
